@@ -305,12 +305,15 @@ func init() {
 			var us []core.Unit
 			for i := range zoo.Types {
 				t := &zoo.Types[i]
-				k := 1
+				k := 2
 				if t.Small {
-					k = 2
+					k = 3
 				}
 				if tier == "thorough" {
 					k++
+				}
+				if t.Name == "Scalars" || t.Name == "Many" {
+					k-- // many slots: the bound is one lower
 				}
 				kk := k
 				us = append(us, core.Unit{Name: fmt.Sprintf("gen:%s:k%d", t.Name, kk), Cost: 10 * kk, Run: func(c *core.Ctx) {
